@@ -68,7 +68,7 @@ func init() {
 		DesignRef:  "4/C06",
 		Rule:       "case = generated history of 5-80 committed entries; each IRC line is applied to the state the history built; non-trivial = history in which >=3 lines got past the registration/unknown-command/MinParams gate into a command handler; distinct = hash of the entry list. counters give the number of lines evaluated and how many reached a handler; labels class:<role>:<COMMAND> count histories that exercised that command in that role",
 		Assumptions: []string{"lines from a services link are protocol-conforming (prefix where the protocol has one, full parameter lists, SVSNICK onto free nicknames)", "CreateSession data (the session secret) has at least 8 characters as the API always produces"},
-		Units:      []unit{ircUnit("lines", "^TestVerifC06$", 6000, 300000)},
+		Units:      []unit{ircUnit("lines", "^TestVerifC06$", 40000, 600000)},
 	})
 	props = append(props, prop{
 		ID: "C01", Title: "replica determinism", Level: "exploration",
@@ -78,7 +78,7 @@ func init() {
 		DesignRef:  "4/C01",
 		Rule:       "case = generated history of 5-80 entries (clients, operators, services link with pseudo-clients, config changes, message-of-death entries, generated timestamps) run on 3 instances; non-trivial = some entry produced >=2 replies AND some iterated map held >=2 elements (channel with >=2 members, >=2 pseudo-clients, >=2 bans, session in >=2 channels); distinct = hash of the entry list",
 		Assumptions: []string{"instances are created with the same network name; numeric 003 is the only tolerated difference"},
-		Units:      []unit{ircUnit("ircserver", "^TestVerifC01$", 4000, 150000)},
+		Units:      []unit{ircUnit("ircserver", "^TestVerifC01$", 30000, 400000)},
 	})
 	props = append(props, prop{
 		ID: "C03", Title: "state serialization is complete", Level: "exploration",
@@ -88,7 +88,17 @@ func init() {
 		DesignRef:  "4/C03",
 		Rule:       "case = generated history of 8-80 entries with a generated cut point; round trip compared after every entry; non-trivial = the cut happened, the state at the cut held at least one of {nick-less session, nick but not logged in, operator, services link with >=2 pseudo-clients, invited session, keyed/banned/+x/+i channel, topic, svshold, away, solved captcha, non-default config} AND the continuation produced replies; distinct = hash of the entry list",
 		Assumptions: []string{"continuations are drawn from the same generator as histories (biased to commands that read state)"},
-		Units:      []unit{ircUnit("roundtrip", "^TestVerifC03$", 5000, 200000)},
+		Units:      []unit{ircUnit("roundtrip", "^TestVerifC03$", 12000, 200000)},
+	})
+	props = append(props, prop{
+		ID: "C12", Title: "messages reach exactly the entitled sessions under the real identity", Level: "exploration",
+		LevelText:  "Every output line of every entry of every generated history is judged against lower/upper bounds on its non-services recipients derived per line kind from the statement, using a channel-membership model that is driven only by the events the server announces, and against the sender identity (nick, user, session-derived host) of the instance; the model's membership is cross-checked against the instance after every entry.",
+		LevelNote:  "Services links are exempt as recipients. Line kinds that are not in the table are counted as unclassified and not judged (an unknown shape is never an alarm). Nickname ownership is read from the instance.",
+		Technique:  "property-based testing (rapid) against an event-driven reference model of channel membership",
+		DesignRef:  "4/C12",
+		Rule:       "case = generated history of 10-100 entries biased to membership changes; every output line is an evaluated obligation (counter lines_judged); non-trivial history = contains a line with >=2 entitled recipients while some other live logged-in session is not entitled; distinct = hash of the entry list",
+		Assumptions: []string{"services links may receive anything", "the table of line kinds (DESIGN.md C12) covers the commands in the tree; others are reported as unclassified"},
+		Units:      []unit{ircUnit("recipients", "^TestVerifC12$", 40000, 500000)},
 	})
 	props = append(props, prop{
 		ID: "C14", Title: "IRC state stays consistent", Level: "exploration",
@@ -98,7 +108,7 @@ func init() {
 		DesignRef:  "4/C14",
 		Rule:       "case = generated history of 20-120 entries biased to membership changes; invariant walk after every entry (and after every inserted snapshot round trip); non-trivial = history with a nick change of a channel member AND a forced removal (KICK/KILL) AND a session that ended while in >=2 channels; distinct = hash of the entry list",
 		Assumptions: []string{"SVSNICK targets regular client sessions and free nicknames", "services introduce pseudo-clients with valid nicknames"},
-		Units:      []unit{ircUnit("invariants", "^TestVerifC14$", 6000, 300000)},
+		Units:      []unit{ircUnit("invariants", "^TestVerifC14$", 40000, 500000)},
 	})
 }
 
